@@ -44,6 +44,66 @@ def gen_tx(rng):
     return rtx.make_tx(version, vin, vout, lock, wit)
 
 
+BOUNDARY_VALUES = (0, 1, 252, 253, 254, 255, 256, 0xfffe, 0xffff, 0x10000, 0x10001)
+
+
+def boundary_cases(values=BOUNDARY_VALUES):
+    """Deterministic: every kind of length / count field at every compact-size encoding boundary (and its neighbours), once in its
+    canonical form (must be accepted and round-trip) and once in every longer-than-necessary form (must be rejected).  The random
+    generator leaves transactions above 5,000 bytes unmutated, so the 65535 / 65536 boundary is driven here."""
+    out = []
+    h32 = bytes(range(32))
+    for v in values:
+        shapes = {
+            'scriptsig-len': rtx.make_tx(2, [[h32, 1, b'\x51' * v, 0xfffffffe]], [(1000, b'')], 0, None),
+            'scriptpubkey-len': rtx.make_tx(2, [[h32, 1, b'', 0xfffffffe]], [(1000, b'\x6a' * v)], 0, None),
+            'witness-item-len': rtx.make_tx(2, [[h32, 1, b'', 0xfffffffe]], [(1000, b'')], 0, [[b'\x07' * v, b'\x02\x03']]),
+        }
+        if v >= 2:
+            shapes['witness-item-count'] = rtx.make_tx(2, [[h32, 3, b'', 0]], [(5, b'')], 0, [[b''] * v])
+            shapes['output-count'] = rtx.make_tx(1, [[h32, 3, b'', 0]], [(7, b'')] * v, 0, None)
+        if 2 <= v <= 256:
+            shapes['input-count'] = rtx.make_tx(1, [[h32, 3, b'', 0]] * v, [(7, b'')], 0, None)
+        for field, t in sorted(shapes.items()):
+            raw = rtx.ser_tx(t)
+            out.append(('boundary-valid/%s-%d' % (field, v), raw.hex(), raw))
+            vals = []
+            orig_cs = rtx.ser_cs
+
+            def rec(x):
+                vals.append(x)
+                return orig_cs(x)
+            rtx.ser_cs = rec
+            try:
+                rtx.ser_tx(t)
+            finally:
+                rtx.ser_cs = orig_cs
+            ks = [k for k, x in enumerate(vals) if x == v]
+            if len(ks) != 1 and v > 3:
+                continue
+            k = ks[0] if v > 3 else ks[-1]
+            forms = []
+            if v < 253:
+                forms.append(b'\xfd' + struct.pack('<H', v))
+            if v <= 0xffff:
+                forms.append(b'\xfe' + struct.pack('<I', v))
+            forms.append(b'\xff' + struct.pack('<Q', v))
+            for form in forms:
+                cnt = [0]
+
+                def sub(x, k=k, form=form, cnt=cnt):
+                    i = cnt[0]
+                    cnt[0] += 1
+                    return form if i == k else orig_cs(x)
+                rtx.ser_cs = sub
+                try:
+                    m = rtx.ser_tx(t)
+                finally:
+                    rtx.ser_cs = orig_cs
+                out.append(('non-canonical-size/boundary-%s-%d-as-%02x' % (field, v, form[0]), m.hex(), m))
+    return out
+
+
 def ref_parse(raw):
     """-> Tx or None (rejected); strict: the whole input must be consumed"""
     try:
@@ -125,6 +185,8 @@ def worker(job):
         # (in chunks: the cases of 15,000 transactions held at once are gigabytes per worker)
         for chunk_start in range(0, n, 400):
             cases = []   # (kind, text, raw bytes)
+            if chunk_start == 0:
+                cases += boundary_cases(BOUNDARY_VALUES[idx::16])     # spread over the workers
             for i in range(chunk_start, min(n, chunk_start + 400)):
                 t = gen_tx(rng)
                 raw = rtx.ser_tx(t)
